@@ -6,6 +6,7 @@ import (
 	"bytes"
 	"encoding/json"
 	"fmt"
+	"github.com/hedzr/is/term/color"
 	"io"
 	"strconv"
 	"strings"
@@ -389,6 +390,12 @@ func encCorpus(mode string, p EncProfile) []EncRec {
 	c4 := cfg
 	c4.Level = customLevel
 	out = append(out, EncRec{c4, "registered custom level", nil})
+	// Always severity: only a message of line breaks, blanks and tabs is the "empty line"; any other white space is a message
+	c5 := cfg
+	c5.Level = 8
+	for _, m := range []string{"\u00a0", "\u2003\u3000", "\v\f", " \u0085 ", "\u2028", "\ufeff", " \t\n", ""} {
+		out = append(out, EncRec{c5, m, nil}, EncRec{c5, m, []GAttr{{Key: "k", Val: GVal{Kind: "int", I: 1}}}})
+	}
 	return out
 }
 
@@ -542,6 +549,12 @@ func replayEnc(id string) func(r *Run, file string) {
 		encSetup(snap)
 		oracle := map[string]func(EncRec, [][]byte) string{"C04": oracleJSON, "C05": oracleLogfmt, "C06": oracleColor}[id]
 		runeSet := map[rune]bool{}
+		if strings.HasPrefix(c.Kind, "corpus-setlevelcolors:") { // the level's colours were set with SetLevelColors
+			var fg, bg int
+			fmt.Sscanf(c.Kind, "corpus-setlevelcolors:%d:%d", &fg, &bg)
+			slog.SetLevelColors(slog.Level(c.Rec.Cfg.Level), color.Color(fg), color.Color(bg))
+			c.Kind = "corpus-stackerr"
+		}
 		if c.Kind == "corpus-stackerr" { // outside the model: direct oracle only
 			payloads := c.Rec.emit()
 			if why := oracle(c.Rec, payloads); why != "" {
